@@ -7,7 +7,7 @@ FORMATS = gen.FORMATS
 SUBSETS = [list(c) for r in range(1, 7) for c in itertools.combinations(FORMATS, r)]  # 63
 
 
-def seq_scenario(seq, mode="folder", nested=False, alter=None, restore=None, seed=0):
+def seq_scenario(seq, mode="folder", nested=False, alter=None, restore=None, seed=0, twin=False):
     """seq: list of format lists, one per generation.  alter = index of the generation before which b.txt is altered,
     restore = index before which it is restored."""
     # s_proxy is a sibling whose name starts with the name of the (possibly nested) history folder s
@@ -18,6 +18,11 @@ def seq_scenario(seq, mode="folder", nested=False, alter=None, restore=None, see
     for i, fmts in enumerate(seq):
         if alter is not None and i == alter:
             ops.append({"op": "write", "path": "s/b.txt", "data": "ALTERED"})
+            if twin:
+                # a NEW file in the (possibly nested) folder s with the same history-relative name as a recorded file of
+                # the root folder, which is altered in the same step
+                ops.append({"op": "write", "path": "s/a.txt", "data": "new twin of a.txt"})
+                ops.append({"op": "write", "path": "a.txt", "data": "ALTERED A"})
         if restore is not None and i == restore:
             ops.append({"op": "write", "path": "s/b.txt", "data": "content B"})
         op = {"op": "create", "at": "", "h": list(fmts), "now": "2026-03-01 12:00:%02d" % (i % 60)}
@@ -28,7 +33,7 @@ def seq_scenario(seq, mode="folder", nested=False, alter=None, restore=None, see
             elif (seed + i) % 3 == 0:
                 op["spell"] = "symlink"
         ops.append(op)
-    return {"root": "root", "tree": tree, "ops": ops, "c04": {"seq": seq, "mode": mode, "nested": nested, "alter": alter, "restore": restore}}
+    return {"root": "root", "tree": tree, "ops": ops, "c04": {"seq": seq, "mode": mode, "nested": nested, "alter": alter, "restore": restore, "twin": twin}}
 
 
 def parse_manifests(asc):
@@ -114,17 +119,19 @@ def monitor(sc, res):
     meta = sc.get("c04")
     if meta:
         altered = False
+        changed = set()
         gi = 0
         for st in res["steps"]:
             op = st["op"]
-            if op["op"] == "write":
-                altered = op["data"] != "content B"
+            if op["op"] == "write" and op["path"] in sc["tree"]:
+                (changed.add if op["data"] != sc["tree"][op["path"]] else changed.discard)(op["path"])
+                altered = bool(changed)
             if op["op"] == "create" and op.get("at", "") == "":
                 io_ = st["impl"]
                 if not altered and (io_["exit"] != 0 or io_["exc"]):
                     fails.append({"what": f"generation {gi+1} with formats {op['h']} on unaltered files: exit {io_['exit']} exc {io_['exc']} (sequence {meta['seq']}, mode {meta['mode']})", "replay": sc})
                 if altered and io_["exit"] != 11:
-                    fails.append({"what": f"generation {gi+1} with formats {op['h']} after altering s/b.txt: exit {io_['exit']} (expected 11)", "replay": sc})
+                    fails.append({"what": f"generation {gi+1} with formats {op['h']} after altering {sorted(changed)}: exit {io_['exit']} (expected 11)", "replay": sc})
                 gi += 1
     return fails
 
@@ -158,7 +165,7 @@ def run(ctx):
             alter = rnd.randint(1, n - 1)
             if rnd.random() < 0.5 and alter + 1 < n:
                 restore = rnd.randint(alter + 1, n - 1)
-        scs.append(seq_scenario(seq, mode=rnd.choice(["folder", "folder", "sf"]), nested=rnd.random() < 0.3, alter=alter, restore=restore, seed=rnd.randint(0, 9)))
+        scs.append(seq_scenario(seq, mode=rnd.choice(["folder", "folder", "sf"]), nested=rnd.random() < 0.3, alter=alter, restore=restore, seed=rnd.randint(0, 9), twin=alter is not None and rnd.random() < 0.4))
         if _ % 4 == 3:
             gen.unsteady_clock(scs[-1], rnd, p=0.7)
     # general pool without rename detection
